@@ -321,6 +321,10 @@ func ruleMatcherGuard(c *Ctx, r *Report, prefix string, exact bool) {
 	cone := moduleOnly(c, c.Cone(roots...))
 	n := 0
 	for _, fn := range sortedFuncs(cone) {
+		if c.IsNew(fn) {
+			continue // a new helper is part of the known functions that call it (GB)
+		}
+		c.curRoot, c.bindParam = fn, nil
 		for _, b := range theCtx.GB(fn) {
 			for _, ins := range b.Instrs {
 				call, ok := callTo(ins, matchLen)
@@ -329,6 +333,11 @@ func ruleMatcherGuard(c *Ctx, r *Report, prefix string, exact bool) {
 				}
 				n++
 				d := call.Call.Args[1]
+				if b.Parent() != fn {
+					if lt, through := c.lookThrough(d); through {
+						d = lt // the helper's parameter stands for the caller's candidate distance
+					}
+				}
 				key := fmt.Sprintf("%s:matchLen#%d", FnName(fn), n)
 				found, weak := false, ""
 				for _, g := range guardsOf(fn) {
